@@ -178,7 +178,8 @@ impl LegacyState {
             protocol: gen::i32_(t),
             version: gen::string(t, &StrOpts { max_len: 16, forbid: &['\0', '§'], unicode: true, control: false, min_len: 0 }),
             // BMP only (UTF-16 strings; supplementary characters are legal but rare), no NUL, no section sign
-            motd: gen::string(t, &StrOpts { max_len: 60, forbid: &['\0', '§'], unicode: true, control: false, min_len: 0 }),
+            // rarely a text so long that the packet's 16-bit length (in UTF-16 units) passes 32767
+            motd: if t.draw(DATA, 60) == 0 { "m".repeat(32_700 + t.draw(DATA, 300) as usize) } else { gen::string(t, &StrOpts { max_len: 60, forbid: &['\0', '§'], unicode: true, control: false, min_len: 0 }) },
             online: gen::u32_(t),
             max: gen::u32_(t),
         }
